@@ -1,6 +1,8 @@
 --------------------------- MODULE MC_Rotations ---------------------------
 EXTENDS Rotations
 QAngles == {CS_Id, CS_90, CS_3_5, CS_12_13n, CS_4_5n}
+\* half angles for the axis-angle / quaternion cases: doubled they cover small, > 120 degree, 180 degree and negative angles
+QHalfAngles == {CS_Id, CS_90, CS_3_5, CS_4_5n, CS_5_13, CS_7_25, CS_12_13n}
 TAngles == CSAll
 OrdersProper == ProperOrders
 OrdersAll == AllOrders
